@@ -41,11 +41,15 @@ def import_data(
 
         if data_type == "tensor":
             shape = import_shape(fp)
+            if len(shape) == 0:
+                return ttb.tensor()
             data = import_array(fp, np.prod(shape))
             return ttb.tensor(data, shape, copy=False)
 
         if data_type == "sptensor":
             shape = import_shape(fp)
+            if len(shape) == 0:
+                return ttb.sptensor()
             nz = import_nnz(fp)
             subs, vals = import_sparse_array(fp, len(shape), nz, index_base)
             return ttb.sptensor(subs, vals, shape)
@@ -58,13 +62,20 @@ def import_data(
 
         if data_type == "ktensor":
             shape = import_shape(fp)
+            if len(shape) == 0:
+                return ttb.ktensor()
             r = import_rank(fp)
             weights = import_array(fp, r)
+            if r == 0:
+                fp.readline()  # np.fromfile(count=0) leaves the empty weights line unread
             factor_matrices = []
             for _ in range(len(shape)):
                 fp.readline().strip()  # Skip factor type
                 fac_shape = import_shape(fp)
                 fac = import_array(fp, np.prod(fac_shape))
+                if r == 0:
+                    for _ in range(fac_shape[0]):  # the rows of an n x 0 factor are n empty lines
+                        fp.readline()
                 fac = np.reshape(fac, np.array(fac_shape))
                 factor_matrices.append(fac)
             return ttb.ktensor(factor_matrices, weights, copy=False)
@@ -79,7 +90,7 @@ def import_type(fp: TextIO) -> str:
 def import_shape(fp: TextIO) -> Tuple[int, ...]:
     """Extract the shape of something from a file."""
     n = int(fp.readline().strip().split(" ")[0])
-    shape = [int(d) for d in fp.readline().strip().split(" ")]
+    shape = [int(d) for d in fp.readline().split()]
     if len(shape) != n:
         assert False, "Imported dimensions are not of expected size"
     return tuple(shape)
